@@ -20,6 +20,11 @@ pub fn gen(g: &mut Gen) {
         "@ trace fp", "var r0 5 via=record", "const r1 7 via=constant", "cos r2 r0 via=ref",
         "divn r3 r0 7 via=ref_ref", "npow r4 7 r0 via=ref_ref", "pow r5 r0 r0 via=ref_ref",
         "neg r6 r0 via=val", "subsw r7 r0 9 via=ref_ref", "divsw r8 r0 9 via=val_val", "derivs r8",
+        // equal numbers with different derivative components
+        "@ trace fp", "var r0 5 via=record", "const r1 5 via=constant", "muln r2 r0 1 via=ref_ref",
+        "addn r3 r1 0 via=ref_ref", "clone r4 r0", "cmp eq r0 r1 via=ref", "cmp eq r1 r0 via=val",
+        "cmp ne r0 r3 via=method", "cmp le r0 r1 via=ref", "cmp ge r1 r2 via=val", "cmp lt r0 r1 via=ref",
+        "cmp pcmp r0 r1 via=ref", "cmp eq r4 r0 via=ref", "show r0", "show r1", "derivs r4",
     ] {
         g.op(line.to_string());
     }
@@ -80,6 +85,7 @@ where
             op4!(via, a, b, Div::div)
         }
         "neg" => { let a = tr(toks[2]); op2!(via, a, Neg::neg) }
+        "clone" => Clone::clone(tr(toks[2])),
         "sum" => {
             let items: Vec<Trace<T>> = split_comma(toks[2]).iter().map(|s| tr(s).clone()).collect();
             items.into_iter().sum::<Trace<T>>()
@@ -156,8 +162,8 @@ struct CaseT<T: TraceEl> {
 }
 
 impl<T: TraceEl> CaseT<T> {
-    fn new() -> CaseT<T> {
-        CaseT { rec: CaseG::new(1), lines: vec![], runs: vec![] }
+    fn new(via: &str) -> CaseT<T> {
+        CaseT { rec: CaseG::new_via(1, via), lines: vec![], runs: vec![] }
     }
 
     /// the whole program so far with input `seed` as the variable
@@ -257,10 +263,43 @@ impl<T: TraceEl> CaseT<T> {
         }
     }
 
+    /// `cmp` / `show` on traces: in every seeded run and in an all-constant run; the answers must
+    /// be the same (they only depend on the numbers), and the same as for records
+    fn observe(&self, toks: &[&str]) -> String {
+        let mut runs: Vec<Vec<Trace<T>>> = self.runs.iter().map(|(_, v)| v.clone()).collect();
+        runs.push(self.replay(usize::MAX));
+        let via = opt_arg("via", toks).unwrap_or("ref");
+        let mut answers: Vec<String> = runs
+            .iter()
+            .map(|vals| match toks[0] {
+                "cmp" => {
+                    let (a, b) = (&vals[self.rec.names[toks[2]]], &vals[self.rec.names[toks[3]]]);
+                    cmp_answer(toks[1], via, a, b)
+                }
+                _ => format!("s={}", &vals[self.rec.names[toks[1]]]),
+            })
+            .collect();
+        if let Some(r) = observe_line(&self.rec, toks) {
+            answers.push(r);
+        }
+        let first = answers[0].clone();
+        if answers.iter().all(|a| *a == first) {
+            first
+        } else {
+            format!("{} RUNS-DIFFER {:?}", first, answers)
+        }
+    }
+
     fn step(&mut self, toks: &[&str]) -> String {
         let is_derivs = toks[0].ends_with("derivs");
-        if !refs_ok(&self.rec.names, toks, if is_derivs { 1 } else { 2 }) {
+        if !refs_ok(&self.rec.names, toks, refs_from(toks)) {
             return "bad-ref".into();
+        }
+        if toks[0] == "cmp" || toks[0] == "show" {
+            return match catch(|| self.observe(toks)) {
+                Ok(s) => s,
+                Err(k) => panic_str(k),
+            };
         }
         if is_derivs {
             match catch(|| self.derivs(toks)) {
@@ -294,9 +333,10 @@ impl Runner {
         }
         if toks[0] == "@" {
             self.case = Case::None;
+            let via = opt_arg("via", toks).unwrap_or("new");
             self.case = match toks.get(2) {
-                Some(&"rat") => Case::Rat(CaseT::new()),
-                _ => Case::Fp(CaseT::new()),
+                Some(&"rat") => Case::Rat(CaseT::new(via)),
+                _ => Case::Fp(CaseT::new(via)),
             };
             return "ok".into();
         }
